@@ -82,16 +82,16 @@ pub fn union_reinterpret(a: Bits, size_b: usize) -> (b: Bits)
 
 // ===== extracted: src/lib.rs =====
 
-    // extracted from src/lib.rs:451  `fn as_slice(&self) -> &[T]`
+    // extracted from src/lib.rs:682  `fn as_slice(&self) -> &[T]`
     pub fn as_slice<N: ArrayLength>(self_: Sl) -> (ret: PanicOr<Sl>)
         requires
             self_.stride == N::n(),
             self_.len == 1,
             self_.valid(),
         ensures
-            ret is Ret, /*OB:as_slice.post.never-panics:C02*/
-            ret->Ret_0.base == self_.base && ret->Ret_0.off == self_.off, /*OB:as_slice.post.aliases:C02*/
-            ret->Ret_0.len == N::n() && ret->Ret_0.stride == 1 && ret->Ret_0.end() == self_.end(), /*OB:as_slice.post.n-elements:C02*/
+            ret is Ret, /*OB:as_slice.post.never-panics:C02,C18*/
+            ret->Ret_0.base == self_.base && ret->Ret_0.off == self_.off, /*OB:as_slice.post.aliases:C02,C18*/
+            ret->Ret_0.len == N::n() && ret->Ret_0.stride == 1 && ret->Ret_0.end() == self_.end(), /*OB:as_slice.post.n-elements:C02,C18*/
     {
         let __r = {
             {
@@ -102,16 +102,16 @@ pub fn union_reinterpret(a: Bits, size_b: usize) -> (b: Bits)
     }
     proof fn reach_as_slice<N: ArrayLength>(self_: Sl) requires self_.stride == N::n(), self_.len == 1, self_.valid(), { assert(false); } /*OB:canary.as_slice:*/
 
-    // extracted from src/lib.rs:455  `fn as_mut_slice(&mut self) -> &mut [T]`
+    // extracted from src/lib.rs:688  `fn as_mut_slice(&mut self) -> &mut [T]`
     pub fn as_mut_slice<N: ArrayLength>(self_: Sl) -> (ret: PanicOr<Sl>)
         requires
             self_.stride == N::n(),
             self_.len == 1,
             self_.valid(),
         ensures
-            ret is Ret, /*OB:as_mut_slice.post.never-panics:C02*/
-            ret->Ret_0.base == self_.base && ret->Ret_0.off == self_.off, /*OB:as_mut_slice.post.aliases:C02*/
-            ret->Ret_0.len == N::n() && ret->Ret_0.stride == 1 && ret->Ret_0.end() == self_.end(), /*OB:as_mut_slice.post.n-elements:C02*/
+            ret is Ret, /*OB:as_mut_slice.post.never-panics:C02,C18*/
+            ret->Ret_0.base == self_.base && ret->Ret_0.off == self_.off, /*OB:as_mut_slice.post.aliases:C02,C18*/
+            ret->Ret_0.len == N::n() && ret->Ret_0.stride == 1 && ret->Ret_0.end() == self_.end(), /*OB:as_mut_slice.post.n-elements:C02,C18*/
     {
         let __r = {
             {
@@ -122,14 +122,14 @@ pub fn union_reinterpret(a: Bits, size_b: usize) -> (b: Bits)
     }
     proof fn reach_as_mut_slice<N: ArrayLength>(self_: Sl) requires self_.stride == N::n(), self_.len == 1, self_.valid(), { assert(false); } /*OB:canary.as_mut_slice:*/
 
-    // extracted from src/lib.rs:459  `fn from_slice(slice: &[T]) -> &GenericArray<T, N>`
+    // extracted from src/lib.rs:701  `fn from_slice(slice: &[T]) -> &GenericArray<T, N>`
     pub fn from_slice<N: ArrayLength>(slice: Sl) -> (ret: PanicOr<Sl>)
         requires
             slice.stride == 1,
             slice.valid(),
         ensures
-            ret is Panic <==> slice.len != N::n(), /*OB:from_slice.post.panics-iff-wrong-length:C02*/
-            ret is Ret ==> ret->Ret_0.base == slice.base && ret->Ret_0.off == slice.off && ret->Ret_0.len == 1 && ret->Ret_0.stride == N::n(), /*OB:from_slice.post.aliases:C02*/
+            ret is Panic <==> slice.len != N::n(), /*OB:from_slice.post.panics-iff-wrong-length:C02,C18*/
+            ret is Ret ==> ret->Ret_0.base == slice.base && ret->Ret_0.off == slice.off && ret->Ret_0.len == 1 && ret->Ret_0.stride == N::n(), /*OB:from_slice.post.aliases:C02,C18*/
     {
         let __r = {
             if slice.len() != N::usize_() {
@@ -143,14 +143,14 @@ pub fn union_reinterpret(a: Bits, size_b: usize) -> (b: Bits)
     }
     proof fn reach_from_slice<N: ArrayLength>(slice: Sl) requires slice.stride == 1, slice.valid(), { assert(false); } /*OB:canary.from_slice:*/
 
-    // extracted from src/lib.rs:475  `fn from_mut_slice(slice: &mut [T]) -> &mut GenericArray<T, N>`
+    // extracted from src/lib.rs:730  `fn from_mut_slice(slice: &mut [T]) -> &mut GenericArray<T, N>`
     pub fn from_mut_slice<N: ArrayLength>(slice: Sl) -> (ret: PanicOr<Sl>)
         requires
             slice.stride == 1,
             slice.valid(),
         ensures
-            ret is Panic <==> slice.len != N::n(), /*OB:from_mut_slice.post.panics-iff-wrong-length:C02*/
-            ret is Ret ==> ret->Ret_0.base == slice.base && ret->Ret_0.off == slice.off && ret->Ret_0.len == 1 && ret->Ret_0.stride == N::n(), /*OB:from_mut_slice.post.aliases:C02*/
+            ret is Panic <==> slice.len != N::n(), /*OB:from_mut_slice.post.panics-iff-wrong-length:C02,C18*/
+            ret is Ret ==> ret->Ret_0.base == slice.base && ret->Ret_0.off == slice.off && ret->Ret_0.len == 1 && ret->Ret_0.stride == N::n(), /*OB:from_mut_slice.post.aliases:C02,C18*/
     {
         let __r = {
             if !(slice.len() == N::usize_()) {
@@ -164,15 +164,15 @@ pub fn union_reinterpret(a: Bits, size_b: usize) -> (b: Bits)
     }
     proof fn reach_from_mut_slice<N: ArrayLength>(slice: Sl) requires slice.stride == 1, slice.valid(), { assert(false); } /*OB:canary.from_mut_slice:*/
 
-    // extracted from src/lib.rs:467  `fn try_from_slice(slice: &[T]) -> Result<&GenericArray<T, N>, LengthError>`
+    // extracted from src/lib.rs:714  `fn try_from_slice(slice: &[T]) -> Result<&GenericArray<T, N>, LengthError>`
     pub fn try_from_slice<N: ArrayLength>(slice: Sl) -> (ret: PanicOr<Result<Sl, LengthError>>)
         requires
             slice.stride == 1,
             slice.valid(),
         ensures
-            ret is Ret, /*OB:try_from_slice.post.never-panics:C02*/
-            ret->Ret_0 is Err <==> slice.len != N::n(), /*OB:try_from_slice.post.err-iff-wrong-length:C02*/
-            ret->Ret_0 is Ok ==> ret->Ret_0->Ok_0.base == slice.base && ret->Ret_0->Ok_0.off == slice.off && ret->Ret_0->Ok_0.len == 1 && ret->Ret_0->Ok_0.stride == N::n(), /*OB:try_from_slice.post.aliases:C02*/
+            ret is Ret, /*OB:try_from_slice.post.never-panics:C02,C18*/
+            ret->Ret_0 is Err <==> slice.len != N::n(), /*OB:try_from_slice.post.err-iff-wrong-length:C02,C18*/
+            ret->Ret_0 is Ok ==> ret->Ret_0->Ok_0.base == slice.base && ret->Ret_0->Ok_0.off == slice.off && ret->Ret_0->Ok_0.len == 1 && ret->Ret_0->Ok_0.stride == N::n(), /*OB:try_from_slice.post.aliases:C02,C18*/
     {
         let __r = {
             if slice.len() != N::usize_() {
@@ -184,15 +184,15 @@ pub fn union_reinterpret(a: Bits, size_b: usize) -> (b: Bits)
     }
     proof fn reach_try_from_slice<N: ArrayLength>(slice: Sl) requires slice.stride == 1, slice.valid(), { assert(false); } /*OB:canary.try_from_slice:*/
 
-    // extracted from src/lib.rs:484  `fn try_from_mut_slice( slice: &mut [T], ) -> Result<&mut GenericArray<T, N>, LengthError>`
+    // extracted from src/lib.rs:744  `fn try_from_mut_slice( slice: &mut [T], ) -> Result<&mut GenericArray<T, N>, LengthError>`
     pub fn try_from_mut_slice<N: ArrayLength>(slice: Sl) -> (ret: PanicOr<Result<Sl, LengthError>>)
         requires
             slice.stride == 1,
             slice.valid(),
         ensures
-            ret is Ret, /*OB:try_from_mut_slice.post.never-panics:C02*/
-            ret->Ret_0 is Err <==> slice.len != N::n(), /*OB:try_from_mut_slice.post.err-iff-wrong-length:C02*/
-            ret->Ret_0 is Ok ==> ret->Ret_0->Ok_0.base == slice.base && ret->Ret_0->Ok_0.off == slice.off && ret->Ret_0->Ok_0.len == 1 && ret->Ret_0->Ok_0.stride == N::n(), /*OB:try_from_mut_slice.post.aliases:C02*/
+            ret is Ret, /*OB:try_from_mut_slice.post.never-panics:C02,C18*/
+            ret->Ret_0 is Err <==> slice.len != N::n(), /*OB:try_from_mut_slice.post.err-iff-wrong-length:C02,C18*/
+            ret->Ret_0 is Ok ==> ret->Ret_0->Ok_0.base == slice.base && ret->Ret_0->Ok_0.off == slice.off && ret->Ret_0->Ok_0.len == 1 && ret->Ret_0->Ok_0.stride == N::n(), /*OB:try_from_mut_slice.post.aliases:C02,C18*/
     {
         let __r = {
             match slice.len() == N::usize_() {
@@ -203,15 +203,15 @@ pub fn union_reinterpret(a: Bits, size_b: usize) -> (b: Bits)
     }
     proof fn reach_try_from_mut_slice<N: ArrayLength>(slice: Sl) requires slice.stride == 1, slice.valid(), { assert(false); } /*OB:canary.try_from_mut_slice:*/
 
-    // extracted from src/lib.rs:500  `fn chunks_from_slice(slice: &[T]) -> (&[GenericArray<T, N>], &[T])`
+    // extracted from src/lib.rs:760  `fn chunks_from_slice(slice: &[T]) -> (&[GenericArray<T, N>], &[T])`
     pub fn chunks_from_slice<N: ArrayLength>(slice: Sl) -> (ret: PanicOr<(Sl, Sl)>)
         requires
             slice.stride == 1,
             slice.valid(),
         ensures
-            N::n() == 0 ==> (ret is Panic <==> slice.len != 0), /*OB:chunks_from_slice.post.n0-panics-iff-nonempty:C10*/
-            N::n() == 0 && slice.len == 0 ==> ret->Ret_0.0.len == 0 && ret->Ret_0.1.len == 0, /*OB:chunks_from_slice.post.n0-empty-gives-two-empty:C10*/
-            N::n() > 0 ==> ret is Ret && ({ let (c, r) = ret->Ret_0; &&& c.base == slice.base && r.base == slice.base &&& c.stride == N::n() && r.stride == 1 &&& c.len == slice.len / N::n() && r.len == slice.len % N::n() &&& c.start() == slice.start() && c.end() == r.start() && r.end() == slice.end() }), /*OB:chunks_from_slice.post.partition:C10*/
+            N::n() == 0 ==> (ret is Panic <==> slice.len != 0), /*OB:chunks_from_slice.post.n0-panics-iff-nonempty:C10,C18*/
+            N::n() == 0 && slice.len == 0 ==> ret->Ret_0.0.len == 0 && ret->Ret_0.1.len == 0, /*OB:chunks_from_slice.post.n0-empty-gives-two-empty:C10,C18*/
+            N::n() > 0 ==> ret is Ret && ({ let (c, r) = ret->Ret_0; &&& c.base == slice.base && r.base == slice.base &&& c.stride == N::n() && r.stride == 1 &&& c.len == slice.len / N::n() && r.len == slice.len % N::n() &&& c.start() == slice.start() && c.end() == r.start() && r.end() == slice.end() }), /*OB:chunks_from_slice.post.partition:C10,C18*/
     {
         let __r = {
             if N::usize_() == 0 {
@@ -234,15 +234,15 @@ pub fn union_reinterpret(a: Bits, size_b: usize) -> (b: Bits)
     }
     proof fn reach_chunks_from_slice<N: ArrayLength>(slice: Sl) requires slice.stride == 1, slice.valid(), { assert(false); } /*OB:canary.chunks_from_slice:*/
 
-    // extracted from src/lib.rs:526  `fn chunks_from_slice_mut(slice: &mut [T]) -> (&mut [GenericArray<T, N>], &mut [T])`
+    // extracted from src/lib.rs:786  `fn chunks_from_slice_mut(slice: &mut [T]) -> (&mut [GenericArray<T, N>], &mut [T])`
     pub fn chunks_from_slice_mut<N: ArrayLength>(slice: Sl) -> (ret: PanicOr<(Sl, Sl)>)
         requires
             slice.stride == 1,
             slice.valid(),
         ensures
-            N::n() == 0 ==> (ret is Panic <==> slice.len != 0), /*OB:chunks_from_slice_mut.post.n0-panics-iff-nonempty:C10*/
-            N::n() == 0 && slice.len == 0 ==> ret->Ret_0.0.len == 0 && ret->Ret_0.1.len == 0, /*OB:chunks_from_slice_mut.post.n0-empty-gives-two-empty:C10*/
-            N::n() > 0 ==> ret is Ret && ({ let (c, r) = ret->Ret_0; &&& c.base == slice.base && r.base == slice.base &&& c.stride == N::n() && r.stride == 1 &&& c.len == slice.len / N::n() && r.len == slice.len % N::n() &&& c.start() == slice.start() && c.end() == r.start() && r.end() == slice.end() }), /*OB:chunks_from_slice_mut.post.partition:C10*/
+            N::n() == 0 ==> (ret is Panic <==> slice.len != 0), /*OB:chunks_from_slice_mut.post.n0-panics-iff-nonempty:C10,C18*/
+            N::n() == 0 && slice.len == 0 ==> ret->Ret_0.0.len == 0 && ret->Ret_0.1.len == 0, /*OB:chunks_from_slice_mut.post.n0-empty-gives-two-empty:C10,C18*/
+            N::n() > 0 ==> ret is Ret && ({ let (c, r) = ret->Ret_0; &&& c.base == slice.base && r.base == slice.base &&& c.stride == N::n() && r.stride == 1 &&& c.len == slice.len / N::n() && r.len == slice.len % N::n() &&& c.start() == slice.start() && c.end() == r.start() && r.end() == slice.end() }), /*OB:chunks_from_slice_mut.post.partition:C10,C18*/
     {
         let __r = {
             if N::usize_() == 0 {
@@ -265,14 +265,14 @@ pub fn union_reinterpret(a: Bits, size_b: usize) -> (b: Bits)
     }
     proof fn reach_chunks_from_slice_mut<N: ArrayLength>(slice: Sl) requires slice.stride == 1, slice.valid(), { assert(false); } /*OB:canary.chunks_from_slice_mut:*/
 
-    // extracted from src/lib.rs:548  `fn slice_from_chunks(slice: &[GenericArray<T, N>]) -> &[T]`
+    // extracted from src/lib.rs:810  `fn slice_from_chunks(slice: &[GenericArray<T, N>]) -> &[T]`
     pub fn slice_from_chunks<N: ArrayLength>(slice: Sl) -> (ret: PanicOr<Sl>)
         requires
             slice.stride == N::n(),
             slice.valid(),
         ensures
-            ret is Ret, /*OB:slice_from_chunks.post.never-panics:C10*/
-            ret->Ret_0.base == slice.base && ret->Ret_0.off == slice.off && ret->Ret_0.stride == 1 && ret->Ret_0.len == slice.len * N::n() && ret->Ret_0.end() == slice.end(), /*OB:slice_from_chunks.post.inverse:C10*/
+            ret is Ret, /*OB:slice_from_chunks.post.never-panics:C10,C18*/
+            ret->Ret_0.base == slice.base && ret->Ret_0.off == slice.off && ret->Ret_0.stride == 1 && ret->Ret_0.len == slice.len * N::n() && ret->Ret_0.end() == slice.end(), /*OB:slice_from_chunks.post.inverse:C10,C18*/
     {
         let __r = {
             {
@@ -283,14 +283,14 @@ pub fn union_reinterpret(a: Bits, size_b: usize) -> (b: Bits)
     }
     proof fn reach_slice_from_chunks<N: ArrayLength>(slice: Sl) requires slice.stride == N::n(), slice.valid(), { assert(false); } /*OB:canary.slice_from_chunks:*/
 
-    // extracted from src/lib.rs:552  `fn slice_from_chunks_mut(slice: &mut [GenericArray<T, N>]) -> &mut [T]`
+    // extracted from src/lib.rs:816  `fn slice_from_chunks_mut(slice: &mut [GenericArray<T, N>]) -> &mut [T]`
     pub fn slice_from_chunks_mut<N: ArrayLength>(slice: Sl) -> (ret: PanicOr<Sl>)
         requires
             slice.stride == N::n(),
             slice.valid(),
         ensures
-            ret is Ret, /*OB:slice_from_chunks_mut.post.never-panics:C10*/
-            ret->Ret_0.base == slice.base && ret->Ret_0.off == slice.off && ret->Ret_0.stride == 1 && ret->Ret_0.len == slice.len * N::n() && ret->Ret_0.end() == slice.end(), /*OB:slice_from_chunks_mut.post.inverse:C10*/
+            ret is Ret, /*OB:slice_from_chunks_mut.post.never-panics:C10,C18*/
+            ret->Ret_0.base == slice.base && ret->Ret_0.off == slice.off && ret->Ret_0.stride == 1 && ret->Ret_0.len == slice.len * N::n() && ret->Ret_0.end() == slice.end(), /*OB:slice_from_chunks_mut.post.inverse:C10,C18*/
     {
         let __r = {
             {
@@ -301,7 +301,7 @@ pub fn union_reinterpret(a: Bits, size_b: usize) -> (b: Bits)
     }
     proof fn reach_slice_from_chunks_mut<N: ArrayLength>(slice: Sl) requires slice.stride == N::n(), slice.valid(), { assert(false); } /*OB:canary.slice_from_chunks_mut:*/
 
-    // extracted from src/lib.rs:676  `pub const unsafe fn const_transmute<A, B>(a: A) -> B`
+    // extracted from src/lib.rs:997  `pub const unsafe fn const_transmute<A, B>(a: A) -> B`
     pub fn const_transmute(a: Bits, size_b: usize) -> (ret: PanicOr<Bits>)
         ensures
             ret is Panic <==> a.size != size_b, /*OB:const_transmute.post.panics-iff-sizes-differ:C02,C10*/
